@@ -30,6 +30,7 @@ type Entry struct {
 	Unwind   int      `json:"unwind,omitempty"`
 	Switches int      `json:"switches,omitempty"`
 	BlockChoices bool `json:"block_choices,omitempty"`
+	YieldUnlock  bool `json:"yield_unlock,omitempty"`
 	Strings  bool     `json:"strings,omitempty"`
 	MaxPaths int      `json:"max_paths,omitempty"`
 	TimeoutS int      `json:"timeout_s,omitempty"`
@@ -300,6 +301,7 @@ func cmdCheck(args []string) {
 			cfg.MaxSwitches = 0
 		}
 		cfg.BlockChoices = e.BlockChoices
+		cfg.YieldUnlock = e.YieldUnlock
 		cfg.Strings = e.Strings
 		if e.MaxPaths > 0 {
 			cfg.MaxPaths = e.MaxPaths
